@@ -88,6 +88,8 @@ def gen_config(rng, order=None, asym=None, qh=None, signs=None, nphi=None, simpl
         for k in range(1, len(rc)):
             rs[k] = abs(rc1) * rnd(rng, -0.2, 0.2) / k
             zc[k] = abs(rc1) * rnd(rng, -0.2, 0.2) / k
+    if asym and len(rc) >= 3 and rng.random() < 0.4:
+        rc[-1] = 0.0; zs[-1] = 0.0          # the last harmonic is carried by rs / zc alone
     sc = lambda l: [round_sig(R0 * x, 4) for x in l]
     cfg = dict(rc=sc(rc), zs=sc(zs), nfp=nfp, order=order)
     if asym:
@@ -127,6 +129,22 @@ def admissible(q, msgs):
     return True
 
 
+def warm_up(q, rng):
+    """a few read-only calls / attribute reads on an object that is about to be changed (C17: they change nothing; anything they cache
+    must be invalidated by the change)"""
+    import matplotlib
+    calls = [lambda: q.grad_B_tensor_cartesian(), lambda: q.Bfield_cylindrical(0.01, 0.3), lambda: q.Bfield_cartesian(0.01, 0.3),
+             lambda: q.B_mag(0.01, 0.2, 0.1), lambda: getattr(q, 'r_singularity', None), lambda: getattr(q, 'grad_B_tensor_cylindrical', None),
+             lambda: q.Frenet_to_cylindrical(0.01, 4), lambda: q.get_dofs(), lambda: getattr(q, 'min_R0', None), lambda: getattr(q, 'L_grad_B', None)]
+    if q.order != 'r1':
+        calls += [lambda: q.grad_grad_B_tensor_cylindrical(), lambda: q.grad_grad_B_tensor_cartesian(), lambda: getattr(q, 'DMerc_times_r2', None)]
+    for i in rng.permutation(len(calls))[:int(rng.integers(3, 7))]:
+        try:
+            calls[int(i)]()
+        except Exception:
+            pass
+
+
 def via_history(cfg, rng, variant=None, which=None):
     """the object for `cfg` reached through a call HISTORY instead of a fresh construction: built for a different axis (possibly with one more
     harmonic) and other scalar inputs, then resized with change_nfourier and moved to cfg with set_dofs (order r3: calculate_shear() afterwards,
@@ -156,6 +174,8 @@ def via_history(cfg, rng, variant=None, which=None):
             lg.removeHandler(h); lg.setLevel(old)
         return q, msgs
     sc = 1.0 + rnd(rng, 0.05, 0.25) * (1 if rng.random() < 0.5 else -1)
+    if variant == 'C' or (variant is None and rng.random() < 0.3):
+        sc = 1.0          # variant C: the SAME axis; only scalar inputs (B0, I2, p2, sigma0, sG, spsi, ...) differ at the start
     c0 = dict(cfg)
     for k in ('rc', 'zs', 'rs', 'zc'):
         if k in cfg:
@@ -165,9 +185,24 @@ def via_history(cfg, rng, variant=None, which=None):
         for k in ('rc', 'zs', 'rs', 'zc'):
             if k in c0:
                 c0[k] = list(c0[k]) + [c0[k][-1] * 0.05 if k in ('rc', 'zs') else 0.0]
-    c0['etabar'] = cfg['etabar'] * (1.0 + rnd(rng, 0.03, 0.1))
+    if not (sc == 1.0 and rng.random() < 0.6):
+        c0['etabar'] = cfg['etabar'] * (1.0 + rnd(rng, 0.03, 0.1))        # (variant C: often ONLY B0 / I2 / p2 / sG / spsi differ)
     if 'B2c' in cfg:
         c0['B2c'] = cfg['B2c'] + 0.07
+    only = which if (variant == 'C' and isinstance(which, str)) else None       # variant C with which in {'B0', 'I2', 'signs'}: exactly that differs
+    if only is not None:
+        c0['etabar'] = cfg['etabar']
+        if 'B2c' in cfg:
+            c0['B2c'] = cfg['B2c']
+    if only == 'B0' or (only is None and rng.random() < 0.5):
+        c0['B0'] = cfg.get('B0', 1.0) * (1.7 if rng.random() < 0.5 else 0.6)
+    if only == 'I2' or (only is None and rng.random() < 0.5):
+        c0['I2'] = cfg.get('I2', 0.0) + (0.3 if rng.random() < 0.5 else -0.2)
+    if 'p2' in cfg and only is None and rng.random() < 0.5:
+        c0['p2'] = cfg['p2'] * 0.5 - 1000.0
+    flip = ['sG', 'spsi'] if only == 'signs' else ([] if only is not None else [k for k in ('sG', 'spsi') if rng.random() < 0.3])
+    for k in flip:
+        c0[k] = -cfg.get(k, 1)
     if rng.random() < 0.35:
         # start from a stellarator-SYMMETRIC object; the symmetry is broken (if the target is asymmetric) only by the later set_dofs
         for k in ('rs', 'zc'):
@@ -185,13 +220,24 @@ def via_history(cfg, rng, variant=None, which=None):
                 q = qsc.Qsc(**c0)
                 if shear_first:
                     q.calculate_shear()      # anything this caches must not survive the change of axis below
+                warm_up(q, rng)              # read-only calls and attribute reads: whatever they cache must not survive the change of state below
+                for k in flip:               # sG / spsi are not degrees of freedom of set_dofs: assign them (the recalculation below uses them)
+                    setattr(q, k, cfg.get(k, 1))
                 if q.nfourier != nh:
                     q.change_nfourier(nh)
                 z = [0.0] * nh
                 x = np.array(list(cfg['rc']) + list(cfg['zs']) + list(cfg.get('rs', z)) + list(cfg.get('zc', z))
                              + [cfg['etabar'], cfg.get('sigma0', 0.0), cfg.get('B2s', 0.0), cfg.get('B2c', 0.0), cfg.get('p2', 0.0), cfg.get('I2', 0.0), cfg.get('B0', 1.0)], dtype=float)
                 h.records.clear()
-                q.set_dofs(x)
+                if rng.random() < 0.7:
+                    q.set_dofs(x)
+                else:
+                    # the other documented way to change an object: assign the inputs, then calculate()
+                    q.rc = np.array(cfg['rc'], dtype=float); q.zs = np.array(cfg['zs'], dtype=float)
+                    q.rs = np.array(cfg.get('rs', z), dtype=float); q.zc = np.array(cfg.get('zc', z), dtype=float)
+                    q.etabar = cfg['etabar']; q.sigma0 = cfg.get('sigma0', 0.0); q.B2s = cfg.get('B2s', 0.0); q.B2c = cfg.get('B2c', 0.0)
+                    q.p2 = cfg.get('p2', 0.0); q.I2 = cfg.get('I2', 0.0); q.B0 = cfg.get('B0', 1.0)
+                    q.calculate()
                 if cfg.get('order') == 'r3' and (shear_first or rng.random() < 0.5):
                     q.calculate_shear()      # (after shear_first the old iota2 would otherwise be left on the object, stale by design)
         msgs = list(h.records)
@@ -319,6 +365,12 @@ CORPUS = [
     # non-symmetric axis with zc != 0 and nfp > 1, sG = -1
     dict(rc=[1.0, 0.06], zs=[0.0, 0.05], rs=[0.0, 0.006], zc=[0.0, 0.02], nfp=3, etabar=-0.8, sigma0=0.1, order='r2', B2c=0.2, B2s=-0.1, B0=0.8, I2=-0.3,
          sG=-1, spsi=1, nphi=31),
+    # a harmonic carried by rs / zc alone (rc = zs = 0 there)
+    dict(rc=[1.0, 0.06, 0.0], zs=[0.0, 0.05, 0.0], rs=[0.0, 0.004, 0.006], zc=[0.0, 0.003, 0.008], nfp=2, etabar=0.9, order='r2', B2c=0.1, I2=0.2, B0=1.2, nphi=31),
+    # nearly axisymmetric axis (constant-data shortcuts must not fire)
+    dict(rc=[1.0, 4.0e-6], zs=[0.0, 4.0e-6], nfp=3, etabar=1.1, order='r1', nphi=31),
+    # weakly shaped axis at second order: B20 is nearly uniform (one-pass variance formulas cancel catastrophically)
+    dict(rc=[1.0, 2.0e-4], zs=[0.0, 2.0e-4], nfp=2, etabar=0.9, order='r2', B2c=0.3, p2=-1.0e5, I2=0.7, nphi=21),
 ]
 
 
@@ -333,15 +385,15 @@ def corpus_objects(orders=None, histories=True):
             q, msgs = build(dict(cfg))
         except Exception:
             continue
-        if admissible(q, msgs):
+        if admissible(q, msgs) or (not msgs and np.all(np.isfinite(q.sigma)) and np.isfinite(q.iota)):
             out.append((dict(cfg), q))
     if histories:
         hr = np.random.default_rng(12345)
-        for cfg, variant in ((CORPUS[3], 'B'), (CORPUS[0], 'A')):
+        for cfg, variant, wh in ((CORPUS[3], 'B', ('rs', 'zc')), (CORPUS[0], 'A', None), (CORPUS[2], 'C', 'B0'), (CORPUS[3], 'C', 'I2'), (CORPUS[2], 'C', 'signs'), (CORPUS[0], 'C', 'I2')):
             if orders and cfg.get('order', 'r1') not in orders:
                 continue
             try:
-                q, msgs = via_history(dict(cfg), hr, variant=variant, which=('rs', 'zc'))
+                q, msgs = via_history(dict(cfg), hr, variant=variant, which=wh)
             except Exception:
                 continue
             if admissible(q, msgs):
